@@ -201,9 +201,7 @@ def run_check(prop: str, tier: str, only: str | None = None, jobs: int = 16, ver
     # obligations that fail because of a recorded known finding are reported separately, not as open obligations
     n_obl_reported = n_obl - n_known_obl
     proved_all = n_obl_reported > 0 and n_dis >= n_obl_reported and not undecided
-    level_cfg = getattr(standin, "LEVEL", None) if standin is not None else None
-    if level_cfg is None and prop in FORCED_LEVEL:
-        level_cfg = FORCED_LEVEL[prop]
+    level_cfg = FORCED_LEVEL.get(prop) or (getattr(standin, "LEVEL", None) if standin is not None else None)
     level = level_cfg or ("proof" if (proved_all and not bounded) else "other")
     if level == "proof" and not proved_all:
         level = "other"
